@@ -42,6 +42,25 @@ def _is_norm(t):
     return isinstance(t, tuple) and t and t[0] == 'call' and t[1] == 'normalize_string'
 
 
+def _pbkdf2_of(ctx, exits):
+    """the one hashlib.pbkdf2_hmac(...) term the returned seed is made of (returned directly, or through a memo the method keeps)"""
+    rets = [e for e in exits if e.kind == 'return']
+    if not rets:
+        ctx.undecided('to_seed has no return path')
+    found = []
+    for e in rets:
+        calls = [t for t in subterms(('w', term(e.value))) if isinstance(t, tuple) and len(t) >= 5 and t[0] == 'mcall' and t[2] == 'pbkdf2_hmac']
+        for store in e.heap.values() if hasattr(e, 'heap') and e.heap else ():
+            try:
+                calls += [t for t in subterms(('w', term(store))) if isinstance(t, tuple) and len(t) >= 5 and t[0] == 'mcall' and t[2] == 'pbkdf2_hmac']
+            except Exception:
+                pass
+        found += [c for c in calls if c not in found]
+    if len(found) != 1:
+        ctx.undecided('to_seed: %d different hashlib.pbkdf2_hmac(...) terms reach the result, expected 1' % len(found))
+    return found[0]
+
+
 @PROP.obligation('C14.nfkd', canaries=[
     mut.replace_expr('mnemonic', 'Mnemonic.to_seed', 'normalize_string(password)', 'password', 'to_seed: passphrase not normalised again'),
     mut.replace_expr('mnemonic', 'Mnemonic.sanitize_mnemonic', 'normalize_string(words)', 'words', 'sanitize_mnemonic: sentence not normalised'),
@@ -55,12 +74,7 @@ def nfkd(ctx):
     q = 'mnemonic:Mnemonic.to_seed'
     for validate in (True, False):
         fn, exits = _run(ctx, 'to_seed', {'words': S(('var', 'words'), 'str'), 'password': S(('var', 'password'), 'str'), 'validate': validate})
-        rets = [e for e in exits if e.kind == 'return']
-        if len(rets) != 1:
-            ctx.undecided('to_seed return paths: %d' % len(rets))
-        rv = term(rets[0].value)
-        if not (isinstance(rv, tuple) and rv[0] == 'mcall' and rv[2] == 'pbkdf2_hmac'):
-            ctx.undecided('to_seed does not return hashlib.pbkdf2_hmac(...)')
+        rv = _pbkdf2_of(ctx, exits)
         kw = dict(rv[4])
         names = ['hash_name', 'password', 'salt', 'iterations']
         for i, a in enumerate(rv[3]):
@@ -106,7 +120,7 @@ def kdf(ctx):
     """PBKDF2 parameters are hash sha512, 2048 iterations, salt prefix b'mnemonic' (BIP39)."""
     q = 'mnemonic:Mnemonic.to_seed'
     fn, exits = _run(ctx, 'to_seed', {'words': S(('var', 'words'), 'str'), 'password': S(('var', 'password'), 'str'), 'validate': False})
-    rv = term([e for e in exits if e.kind == 'return'][0].value)
+    rv = _pbkdf2_of(ctx, exits)
     kw = dict(rv[4])
     for i, a in enumerate(rv[3]):
         kw.setdefault(['hash_name', 'password', 'salt', 'iterations', 'dklen'][i], a)
@@ -524,3 +538,60 @@ def no_shared_tables(ctx):
     language that decodes would be used by the objects of every other language."""
     from .common_effect import class_shared_state as run
     run(ctx, 'mnemonic', 'Mnemonic', 'after an English sentence was decoded, Mnemonic("japanese").to_entropy(<valid sentence>) raises "not in list", and a French sentence made of words shared with English decodes to the English entropy')
+
+
+@PROP.obligation('C14.cache-keys')
+def cache_keys(ctx):
+    """The seed is a function of sentence AND passphrase (several passphrases on one sentence are the BIP39 "hidden wallets"). Every
+    container a method of Mnemonic both looks up and stores into (none exists on the reference tree; a fixture self-test keeps the
+    detector honest) is looked up with a key that carries every parameter the cached value depends on."""
+    from .common_cache import cache_keys as run
+    run(ctx, [('mnemonic', lambda q: q.startswith('Mnemonic.'))], 'Mnemonic methods')
+
+
+@PROP.obligation('C14.list-form', canaries=[
+    mut.replace_expr('mnemonic', 'Mnemonic.__init__', 'w.strip()', "unicodedata.normalize('NFC', w.strip())", 'the word list is composed (NFC) on load'),
+])
+def list_form(ctx):
+    """Words are looked up in the object's list (to_entropy: self._wordlist.index(word)) after the sentence went through
+    normalize_string (NFKD). The bundled spanish / french / japanese files are stored decomposed, so the lookup works only while the
+    list is what the file says: every element the constructor stores is the stripped line itself or its NFKD form (normalize_string /
+    unicodedata.normalize('NFKD', ...)) - any other normal form makes every accented word of a valid sentence "not in list"."""
+    q = 'mnemonic:Mnemonic.__init__'
+    fn = ctx.repo.func(q)
+    stores = [a for a in ast.walk(fn) if isinstance(a, ast.Assign) and any(norm(t) == 'self._wordlist' for t in a.targets) and not (isinstance(a.value, ast.List) and not a.value.elts)]
+    if not stores:
+        ctx.undecided('Mnemonic.__init__: no assignment of self._wordlist from the file')
+    n = 0
+    for a in stores:
+        v = a.value
+        if not isinstance(v, ast.ListComp) or len(v.generators) != 1 or not isinstance(v.generators[0].target, ast.Name):
+            ctx.undecided('Mnemonic.__init__: self._wordlist = %s is not a comprehension over the lines of the file' % norm(v)[:60])
+        var = v.generators[0].target.id
+        e = v.elt
+        forms = []
+        while True:
+            if isinstance(e, ast.Call) and isinstance(e.func, ast.Attribute) and e.func.attr in ('strip', 'rstrip') and norm(e.func.value) == var:
+                break
+            if isinstance(e, ast.Name) and e.id == var:
+                break
+            if isinstance(e, ast.Call) and norm(e.func) == 'normalize_string' and len(e.args) == 1:
+                forms.append('NFKD')
+                e = e.args[0]
+                continue
+            if isinstance(e, ast.Call) and norm(e.func) == 'unicodedata.normalize' and len(e.args) == 2 and isinstance(e.args[0], ast.Constant):
+                forms.append(e.args[0].value)
+                e = e.args[1]
+                continue
+            if isinstance(e, ast.Call) and isinstance(e.func, ast.Attribute) and e.func.attr in ('strip', 'rstrip'):
+                e = e.func.value
+                continue
+            forms.append('?' + norm(e)[:30])
+            break
+        n += 1
+        ctx.saw('self._wordlist = [%s for %s in ...]: transformations besides strip: %s; filter: %s' % (norm(v.elt)[:60], var, forms or 'none', [norm(i)[:30] for i in v.generators[0].ifs] or 'none'))
+        bad = [f for f in forms if f != 'NFKD']
+        ctx.require(not bad, q, 'the words of the list are stored as `%s` (%s): not the form normalize_string gives the words that are looked up' % (norm(v.elt)[:60], ', '.join(bad)), a,
+                    "Mnemonic('spanish').to_entropy(<valid sentence with an accented word>) raises \"'envío' is not in list\": the official Japanese BIP39 vectors are rejected")
+        ctx.require(not v.generators[0].ifs, q, 'lines of the word-list file are filtered (`%s`): word numbers shift' % norm(v.generators[0].ifs[0])[:50] if v.generators[0].ifs else '', a)
+    ctx.floor(n, 1, 'word-list loads')
